@@ -644,6 +644,9 @@ int read_msf(struct in_buffer* b,struct msa** m)
                         active_seq = 0;
                 }else{
                         if(!isspace(line[0])){
+                                if(msa->alloc_numseq == active_seq){
+                                        RUN(resize_msa(msa));
+                                }
                                 seq_ptr = msa->sequences[active_seq];
                                 //p = strstr(line,seq_ptr->name);
                                 //if(p){
